@@ -58,7 +58,7 @@ Inductive c20_case :=
    request the Proxy-Authorization values the proxy received (None = header absent) *)
 | ProxySeqCase (rs : list proxy_req) (texts : list bytes) (obs : list (list (option bytes)))
 (* one call through a real client against the scripted origin *)
-| ExchangeCase (t : hash_table) (replayable : bool) (fault : option bool) (first : wire_request) (status : N) (chal rbody user pass cnonce : bytes)
+| ExchangeCase (t : hash_table) (replayable : bool) (fault : option bool) (first : wire_request) (status : N) (chals : list bytes) (rbody user pass cnonce : bytes)
                (obs_wire : list wire_request) (e : obs_err).
 
 Definition opt_ui_eqb (a b : option userinfo) : bool :=
@@ -138,8 +138,8 @@ Definition c20_check (c : c20_case) : bool :=
       all3 (fun (r : proxy_req) t (_ : list (option bytes)) =>
               match t with [] => true | _ => bytes_eqb (pu_string (fst (fst r))) t end) rs texts obs &&
       all3 proxy_obs_ok rs (proxy_run [] rs) obs
-  | ExchangeCase t rp fault first status chal rbody user pass cnonce obs e =>
-      let rsp := mkResp false status chal rbody in
+  | ExchangeCase t rp fault first status chals rbody user pass cnonce obs e =>
+      let rsp := mkResp false status (select_challenge chals) rbody in
       list_eqb wire_eqb (digest_exchange_f (H_tab t) fault rp first rsp user pass cnonce) obs &&
       match digest_middleware (H_tab t) rp first rsp user pass cnonce, fault, e with
       | MwErr x, _, ODigest y => derr_eqb x y
